@@ -1483,3 +1483,19 @@ LEMMAS['sample_expect_one'] = dict(
           ('lemma', 'ordp_slice', ['c', 'gs', 'ps', 'r', 'N', 'N - r']),
           ('lemma', 'member_expect', ['gs', 'ps', _ssL, _soO, _soP, 'r', 'N'])],
 )
+
+# ------------------------------------------------------------------ C12: "converting that state back gives the same map"
+# the two conversion contracts (row interleaving) composed: every row and every phase returns to its place, in both orders
+_m2s = ['rows(S) == 2 * N', 'cols(S) == 2 * N', 'len(SP) == 2 * N',
+        'forall(i, 0, N, forall(c, 0, 2 * N, S[i][c] == M[2 * i + 1][c] and S[N + i][c] == M[2 * i][c]))',
+        'forall(i, 0, N, SP[i] == MP[2 * i + 1] and SP[N + i] == MP[2 * i])']
+_s2m = ['rows(M2) == 2 * N', 'cols(M2) == 2 * N', 'len(MP2) == 2 * N',
+        'forall(i, 0, N, forall(c, 0, 2 * N, M2[2 * i + 1][c] == S[i][c] and M2[2 * i][c] == S[N + i][c]))',
+        'forall(i, 0, N, MP2[2 * i + 1] == SP[i] and MP2[2 * i] == SP[N + i])']
+LEMMAS['map_state_roundtrip'] = dict(
+    doc='state_to_map after map_to_state (their postconditions) is the identity on tables and phases: stated per pair of rows',
+    params=[('M', 'int2'), ('MP', 'int1'), ('S', 'int2'), ('SP', 'int1'), ('M2', 'int2'), ('MP2', 'int1'), ('N', 'int')],
+    requires=['N >= 0', 'rows(M) == 2 * N', 'cols(M) == 2 * N', 'len(MP) == 2 * N'] + _m2s + _s2m,
+    ensures=['forall(i, 0, N, forall(c, 0, 2 * N, M2[2 * i][c] == M[2 * i][c] and M2[2 * i + 1][c] == M[2 * i + 1][c]))',
+             'forall(i, 0, N, MP2[2 * i] == MP[2 * i] and MP2[2 * i + 1] == MP[2 * i + 1])'],
+)
